@@ -37,7 +37,7 @@ impl Args {
   }
 }
 
-#[derive(Clone, Debug)]
+#[derive(Clone, Debug, serde::Serialize, serde::Deserialize)]
 pub struct Violation {
   pub signature: String,
   pub detail: Value,
@@ -55,7 +55,7 @@ pub struct KnownFinding {
 }
 
 /// Per-thread (mergeable) accumulator.
-#[derive(Default, Debug)]
+#[derive(Default, Debug, serde::Serialize, serde::Deserialize)]
 pub struct Acc {
   pub evaluations: u64,
   pub distinct: BTreeSet<u64>,
@@ -82,6 +82,10 @@ impl Acc {
     } else {
       self.count("violations_beyond_cap", 1);
     }
+  }
+  /// merge without the sample cap used when joining threads
+  pub fn merge_all(&mut self, o: Acc) {
+    self.merge(o);
   }
   pub fn merge(&mut self, o: Acc) {
     self.evaluations += o.evaluations;
@@ -165,6 +169,17 @@ impl Report {
     }
     let replay_dir = self.args.verif_dir.join("replays");
     let _ = std::fs::create_dir_all(&replay_dir);
+    // stale witnesses of this property/seed would be confusing
+    if self.args.replay.is_none() {
+      if let Ok(rd) = std::fs::read_dir(&replay_dir) {
+        let pre = format!("{}-{}-", id, self.args.seed);
+        for e in rd.flatten() {
+          if e.file_name().to_string_lossy().starts_with(&pre) {
+            let _ = std::fs::remove_file(e.path());
+          }
+        }
+      }
+    }
     let mut lines = vec![];
     for (i, v) in new_violations.iter().enumerate() {
       let path = replay_dir.join(format!("{}-{}-{}.json", id, self.args.seed, i));
